@@ -18,7 +18,7 @@ def d17Sched : List (Nat × Nat) :=
 /-- shortest swallowed-wake-up schedule (15 steps): two units, one `set()`; the consumer that resets the
     signal takes one unit and leaves without passing the wake-up on -/
 def swallowSched : List (Nat × Nat) :=
-  [(0,0),(0,0),(0,0),(0,0),(0,1),(1,0),(1,0),(1,0),(1,0),(1,0),(0,1),(0,1),(0,1),(0,1),(2,1)]
+  [(0,0),(0,0),(0,0),(0,0),(0,0),(0,0),(0,1),(1,0),(1,0),(1,0),(1,0),(1,0),(0,1),(0,1),(0,1),(0,1),(2,1)]
 
 theorem d17_run_stuck :
     runStuckB { nc := 2, ns := 1, repaired := false, handoff := true } d17Sched = true := by decide
